@@ -106,6 +106,13 @@ class LibHooks(Hooks):
 
     def on_memset(self, st, r, off, length, byte, ins):
         if r.name == 'STATE':
+            S = st.store
+            if isinstance(byte, Int) and S.const_of(byte.a) == 0 and S.entails_eq0(off) and \
+                    S.entails_eq0(length.a.sub(r.length)):
+                # the whole state array is zero: the cell invariant J holds trivially from here on
+                st.tags['J'] = True
+                st.tags[('dirty', 'STATE')] = frozenset()
+                return
             lc = st.store.const_of(length.a)
             if lc is not None:
                 d = st.tags.get(('dirty', 'STATE'), frozenset())
